@@ -424,6 +424,11 @@ pub fn c06(rep: &mut Report, tier: &str, seed: u64, prop: &'static str) {
             k(Key::Tab),
             kh(Key::Lf, HMode::Write("o")),
             kh(Key::Lf, HMode::ParseErr),
+            kh(Key::Lf, HMode::ParseErrKind(1)),
+            kh(Key::Lf, HMode::ParseErrKind(2)),
+            kh(Key::Lf, HMode::ParseErrKind(3)),
+            kh(Key::Lf, HMode::ParseErrKind(4)),
+            kh(Key::Lf, HMode::ParseErrKind(5)),
             kh(Key::Lf, HMode::Prompt("é> ")),
             wr("x"),
             Ev::SetPrompt("$ "),
@@ -803,6 +808,11 @@ pub fn c14(rep: &mut Report, tier: &str, seed: u64) {
         k(Key::Tab),
         kh(Key::Lf, HMode::Write("o")),
         kh(Key::Lf, HMode::ParseErr),
+        kh(Key::Lf, HMode::ParseErrKind(1)),
+        kh(Key::Lf, HMode::ParseErrKind(2)),
+        kh(Key::Lf, HMode::ParseErrKind(3)),
+        kh(Key::Lf, HMode::ParseErrKind(4)),
+        kh(Key::Lf, HMode::ParseErrKind(5)),
         kh(Key::Lf, HMode::Prompt("é> ")),
         wr("x"),
         Ev::SetPrompt("$ "),
